@@ -7,7 +7,7 @@ AUDIT_IMPORTS = ["HypatiaProofs.Properties.C04"]
 THEOREMS = ["Hyp.Query." + t for t in (
     "c04_budget_irrelevant", "c04_and", "c04_or", "c04_well_typed_succeeds", "c04_and_constructor",
     "c04_or_constructor", "c04_not_is_negate", "c04_complement_partial", "c04_negate_complement_partial",
-    "c04_notall_violates_complement")]
+    "c04_notall_violates_complement", "c04_end_to_end", "c04_apply_congruence", "c04_and_end_to_end")]
 CASES = {"quick": 1500, "thorough": 150000}
 BUDGET_S = {"quick": 40, "thorough": 700}
 RULE = ("catalogs of 1-4 real indexes (field, keyword, facet, text) with 0-25 documents; half of the catalogs are "
@@ -20,7 +20,9 @@ RULE = ("catalogs of 1-4 real indexes (field, keyword, facet, text) with 0-25 do
 LEVEL_TEXT = ("Lean 4 theorems by induction over the query tree for every catalog: And = intersection, Or = union "
               "of the operands' answers, Not/negate = complement under the Total hypothesis (De Morgan over "
               "hypatia's negate table), with the model of hypatia/query tied to the code by a differential run")
-LEVEL_NOTE = ("leaves are answered at specification level (C01/C02/C03 justify that); trusted: Lean kernel, the "
+LEVEL_NOTE = ("leaves are answered at specification level; for field and keyword/facet indexes that is a theorem "
+              "(c04_end_to_end: the same _apply composition over the C01/C02 index models after arbitrary "
+              "histories has the same outcome on every tree), text leaves rest on C03; trusted: Lean kernel, the "
               "sampled correspondence, harness. Known findings D2 (NotAll._apply) and D10 (family32) are mirrored "
               "/ classified, not hidden")
 TECHNIQUE = "Lean 4 structural induction over the query AST + differential correspondence on real catalogs"
